@@ -17,6 +17,10 @@ variable {F : Type} [FloatOps F] [LawfulFloatOps F] [CompatLaws F]
 
 /-! ## rebuilding from the datainfo, copying -/
 
+/-- `±sys.float_info.max` are canonical (laws of the carrier) -/
+theorem constsOK2 : ConstsOK2 F :=
+  ⟨LawfulFloatOps.addZero_neg_maxFinite, LawfulFloatOps.addZero_maxFinite⟩
+
 /-- the full statement: exporting the datainfo of an exportable tree and rebuilding it yields a type with
 the same datainfo again that validates and imports exactly like the original -/
 def rebuild_equiv_statement (F : Type) [FloatOps F] : Prop :=
@@ -28,40 +32,39 @@ def rebuild_equiv_statement (F : Type) [FloatOps F] : Prop :=
 /-- proved part: the rebuilt tree is the original one up to the enum name (not exported) and the `client`
 mark, hence all three conjuncts.  Missing for the full statement: a struct whose `optional` list names all
 members in an order other than the member order (the datainfo leaves `optional` out, the rebuild lists the
-members in member order — the same set, but not the same tree in the model: `OptionalInOrder`); and the
-carrier facts `ConstsOK2` (`±sys.float_info.max` are not `-0.0`), which no law class states. -/
-theorem rebuild_equiv_partial (D : Consts F) (hD : D.OK) (hC : ConstsOK2 F) (dt : DInfo F) (hwf : dt.WF D)
+members in member order — the same set, but not the same tree in the model: `OptionalInOrder`). -/
+theorem rebuild_equiv_partial (D : Consts F) (hD : D.OK) (dt : DInfo F) (hwf : dt.WF D)
     (hex : dt.Exportable) (hord : dt.OptionalInOrder) :
     ∃ j dt', exportDatatype D dt = .ok j ∧ getDatatype D j = .ok dt' ∧ exportDatatype D dt' = .ok j ∧
       (∀ v prev, validate dt'.erase v prev = validate dt.erase v prev) ∧
       (∀ w, importValue dt'.erase w = importValue dt.erase w) := by
-  obtain ⟨j, h1, h2⟩ := rebuild_core D hD hC dt hwf hex hord
+  obtain ⟨j, h1, h2⟩ := rebuild_core D hD constsOK2 dt hwf hex hord
   exact ⟨j, dt.asClient, h1, h2, by rw [export_asClient, h1], validate_asClient dt, import_asClient dt⟩
 
 /-- `copy()` of an exportable tree is the tree itself (same datainfo, same `validate`, same `import_value`,
 same `__call__`, the enum name and the client mark kept) — sharing is the subject of `copyH_fresh` -/
-theorem copy_equiv (D : Consts F) (hD : D.OK) (hC : ConstsOK2 F) (dt : DInfo F) (hwf : dt.WF D)
+theorem copy_equiv (D : Consts F) (hD : D.OK) (dt : DInfo F) (hwf : dt.WF D)
     (hex : dt.Exportable) :
     ∃ dt', copy D dt = .ok dt' ∧ exportDatatype D dt' = exportDatatype D dt ∧
       (∀ v prev, validate dt'.erase v prev = validate dt.erase v prev) ∧
       (∀ w, importValue dt'.erase w = importValue dt.erase w) ∧ (∀ v, call dt'.erase v = call dt.erase v) :=
-  ⟨dt, copy_core D hD hC dt hwf hex, rfl, fun _ _ => rfl, fun _ => rfl, fun _ => rfl⟩
+  ⟨dt, copy_core D hD constsOK2 dt hwf hex, rfl, fun _ _ => rfl, fun _ => rfl, fun _ => rfl⟩
 
 /-! ## compatibility verdicts -/
 
 /-- the full statement: "the check passes only if every value valid for the first is valid for the second" -/
 def compatible_sound_statement (F : Type) [FloatOps F] : Prop :=
-  ∀ a b : DType F, a.WF → b.WF → GridAligned a → compatible a b = .ok () →
+  ∀ a b : DType F, a.WF → b.WF → GridAligned a → GridAligned b → compatible a b = .ok () →
     ∀ v, InSet a v → ∃ r, validate b v none = .ok r
 
 /-- proved part: a passing check is sound whenever no `relative_resolution` of the second type exceeds 1
 (the law "the tolerance band is order convex") and no member that is optional in a struct of the first type
 is mandatory in the second (`StructOf.compatible` does not look at `self.optional`: recorded finding).
 Missing for the full statement: exactly these two side conditions. -/
-theorem compatible_sound_partial (a b : DType F) (ha : a.WF) (hb : b.WF) (hal : GridAligned a)
+theorem compatible_sound_partial (a b : DType F) (ha : a.WF) (hb : b.WF) (hal : GridAligned a) (hbl : GridAligned b)
     (hres : ResLeOne b) (hopt : OptionalRespected a b) (h : compatible a b = .ok ()) :
     ∀ v, InSet a v → ∃ r, validate b v none = .ok r :=
-  compat_sound a b ha hb hal hres hopt h
+  compat_sound a b ha hb hal hbl hres hopt h
 
 /-- the full statement fails on the code that exists: a struct whose member is optional passes the check
 against the same struct with the member mandatory, and the empty struct value separates them -/
@@ -69,7 +72,7 @@ theorem compatible_sound_fails : ¬ compatible_sound_statement Rat := by
   intro hs
   have h := hs (.struct [("x", .bool)] ["x"] false) (.struct [("x", .bool)] [] false)
     (by simp [DType.WF, DType.WFFields]) (by simp [DType.WF, DType.WFFields])
-    (by simp [GridAligned, GridAlignedFields]) rfl (.dict [])
+    (by simp [GridAligned, GridAlignedFields]) (by simp [GridAligned, GridAlignedFields]) rfl (.dict [])
     (by simp [InSet, InSetG])
   obtain ⟨r, hr⟩ := h
   have : validate (.struct [("x", .bool)] [] false : DType Rat) (.dict []) none = .error .wrongType := rfl
@@ -164,10 +167,10 @@ theorem datatypes_exported_props :
 /-! ## non-vacuity -/
 
 /-- the hypotheses of `compatible_sound_partial` are met by a pair the check accepts -/
-example : ∃ (a b : DType Rat), a.WF ∧ b.WF ∧ GridAligned a ∧ ResLeOne b ∧ OptionalRespected a b ∧
+example : ∃ (a b : DType Rat), a.WF ∧ b.WF ∧ GridAligned a ∧ GridAligned b ∧ ResLeOne b ∧ OptionalRespected a b ∧
     compatible a b = .ok () ∧ InSet a (.int 2) :=
   ⟨.int 1 2, .enum [("a", 1), ("b", 2)], by simp [DType.WF, DType.intLimit], by simp [DType.WF, DType.namesOK],
-    trivial, trivial, trivial, rfl, by simp [InSet, InSetG]⟩
+    trivial, trivial, trivial, trivial, rfl, by simp [InSet, InSetG]⟩
 
 /-- … and `compatible_complete` applies to a container pair with nested members -/
 example : ∃ (a b : DType Rat), a.WF ∧ b.WF ∧ GridAligned a ∧ GridAligned b ∧ Nested a b :=
